@@ -88,7 +88,11 @@ bool World::open_file(int m, bool create) {
     try {
         FileMode fm = create ? FileMode::Overwrite : (m ? FileMode::ReadOnly : FileMode::ReadWrite);
         Compression comp = plan.swarm.file_compression ? Compression::DeflateNormal : Compression::None;
-        f = File::open(open_path(), fm, "hdf5", comp);
+        // the Force flag only bypasses the version check: on a file of the library's own version it must make no difference
+        OpenFlags fl = (next_open_force && !create) ? OpenFlags::Force : OpenFlags::None;
+        if (next_open_force && !create) cnt.inc("open.force_flag");
+        next_open_force = false;
+        f = File::open(open_path(), fm, "hdf5", comp, fl);
         is_open = true; mode = m; session++; lookups_due = true;
         cnt.inc(m ? "open.ro" : (create ? "open.create" : "open.rw"));
         if (m == 1) { ro_tracking = true; ro_bytes = pre_bytes; ro_writes0 = w0; ro_wopens0 = wo0; }
@@ -714,7 +718,8 @@ int World::exec_session(const Op &op) {
             path = np;
             cnt.inc("restart.snapshot");
         } else cnt.inc("restart.same_path");
-        arg_class = std::string(m ? "RO" : "RW") + (via ? ",snapshot" : ",same-path");
+        next_open_force = (((unsigned) op.a[4]) % 6) == 0;
+        arg_class = std::string(m ? "RO" : "RW") + (via ? ",snapshot" : ",same-path") + (next_open_force ? ",Force" : "");
         if ((((unsigned) op.a[3]) % (lane_prop == "C02" ? 3u : 8u)) == 0 && !getenv("NIXSIM_NO_XPROC")) {
             // C02 "in the same or in another process": before this process reopens the file a separate process reads it
             std::string out, want = render(before) + "HASH " + hex64(node_hash(before)) + "\n";
